@@ -871,25 +871,35 @@ def reveal_algebra(ctx, facts):
             ctx.ob("POLY-reveal", f"{name}:receives-from-the-senders", okr, f"receives from {sorted(got_r)}" if okr else f"receives from {sorted(map(str, got_r))}: not matched by a send in the opposite direction", site_of(main, recvs[0][0]) if recvs else site_of(main))
             # opened value
             oko, why = False, "no Ok(Some(..)) value found"
-            for bb, idx, s in main.iter_assigns():
-                r = s["r"]
-                if r["k"] == "agg" and r.get("adt") == "std::option::Option" and r.get("vn") == "Some":
-                    e = flow.expr_of(main, r["ops"][0], max_depth=30)
-                    def leaf(x):
-                        x = flow.strip_casts(x)
-                        if x[0] == "call" and re.search(r"::(left_arr|left)$", x[1]):
-                            return Poly.var("left")
-                        if x[0] == "call" and re.search(r"::(right_arr|right)$", x[1]):
-                            return Poly.var("right")
-                        if x[0] == "proj" and ("Future::poll" in str(x) or "::receive" in str(x)):
-                            return Poly.var("received")
-                        return None
-                    try:
-                        p = ev(e, leaf)
-                        oko = p == Poly.var("received") + Poly.var("left") + Poly.var("right")
-                        why = "received + left + right" if oko else f"the opened value is {dict(p)}"
-                    except Unknown as u:
-                        why = f"cannot read the opened value ({u})"
+            # the Some(..) that carries the opened value may be built in main or in a closure of it (`cond.then(|| Some(..))`);
+            # other Some(..) values (Some(role) in the excluded test) are not sums of shares and are set aside
+            good, unread = [], []
+            for body_ in [main] + [c for c in tree if c is not main and not c.coroutine and c.kind == "Closure"]:
+                for bb, idx, s in body_.iter_assigns():
+                    r = s["r"]
+                    if r["k"] == "agg" and r.get("adt") == "std::option::Option" and r.get("vn") == "Some":
+                        e = flow.expr_of(body_, r["ops"][0], max_depth=30)
+
+                        def leaf(x, body_=body_):
+                            x = flow.strip_casts(x)
+                            if x[0] == "upvar":
+                                x = flow.strip_casts(resolve(x, body_))
+                            if x[0] == "call" and re.search(r"::(left_arr|left)$", x[1]):
+                                return Poly.var("left")
+                            if x[0] == "call" and re.search(r"::(right_arr|right)$", x[1]):
+                                return Poly.var("right")
+                            if x[0] == "proj" and ("Future::poll" in str(x) or "::receive" in str(x)):
+                                return Poly.var("received")
+                            return None
+                        try:
+                            good.append(ev(e, leaf))
+                        except Unknown as u:
+                            unread.append(u)
+            if good:
+                oko = all(p == Poly.var("received") + Poly.var("left") + Poly.var("right") for p in good)
+                why = "received + left + right" if oko else f"the opened value is {[dict(p) for p in good]}"
+            elif unread:
+                why = f"cannot read the opened value ({unread[-1]})"
             ctx.ob("POLY-reveal", f"{name}:opened=received+left+right", oko, why, site_of(main))
     finally:
         flow.CLOSURE_DEFS = old
